@@ -50,9 +50,13 @@ int c_var2h(int nvalvar, int nvalh,
         fprintf(stdout, "\n\tprogression (percent)..\n\t");
     }
 
+    /* At least one interval is needed */
+    if(nvalvar<2)
+        return VAR2H_ERROR + __LINE__;
+
     /* Set first time step to be immediately before hstart */
     varindex = 0;
-    while(varsec[varindex]<=hstartsec) varindex++;
+    while(varindex<nvalvar && varsec[varindex]<=hstartsec) varindex++;
     varindex--;
 
     /* hstart is smaller than first value in varsec */
@@ -67,6 +71,14 @@ int c_var2h(int nvalvar, int nvalh,
     /* Initialisation */
     nan = zero/zero;
     ierr = 0;
+
+    /* No observation after hstart: nothing can be computed */
+    if(varindex+1>=nvalvar)
+    {
+        for(i=0; i<nvalh; i++)
+            hvalues[i] = nan;
+        return ierr;
+    }
 
     /* Loop through instantaneous data */
     for(i=0; i<nvalh-1; i++)
